@@ -25,7 +25,7 @@ import runner  # noqa: E402
 from pybbi import decode as D  # noqa: E402
 
 QUICK_CASES = 2000
-THOROUGH_CASES = 40000
+THOROUGH_CASES = 120000
 
 
 def judge_file(side_path, delete=True):
